@@ -1,4 +1,57 @@
-From WI Require Import Lib.Base Lib.Info Model.Render.
-Theorem C20_placeholder : print_info (Info [] [] []) 0 = [10].
-Proof. reflexivity. Qed.
-Print Assumptions C20_placeholder.
+From WI Require Import Lib.Base Lib.Info Lib.Utf8 Model.Render Proofs.Render.
+Open Scope N_scope.
+
+(* C20.  Each description and each attribute occupies exactly one output line,
+   indented according to its depth, so the number and indentation of output lines are
+   determined by the structure of the report alone.  No control character taken from
+   the inspected content (newline, carriage return, escape, other C0/C1 controls, DEL)
+   is written to standard output unescaped.
+
+   [info_ok i]: every string of the report tree [i] is a list of bytes (< 256). *)
+
+(* the output, split at LF, is exactly the list of lines fixed by the tree structure *)
+Theorem C20_line_structure : forall i n, info_ok i ->
+  split_lines (print_info i n) = lines_of sanitize i n.
+Proof. exact report_lines. Qed.
+Print Assumptions C20_line_structure.
+
+Theorem C20_count : forall i, info_ok i ->
+  length (split_lines (print_info i 0)) = count_lines i.
+Proof. exact report_line_count. Qed.
+Print Assumptions C20_count.
+
+Theorem C20_indentation : forall i, info_ok i ->
+  lines_indented (indents_of i 0) (split_lines (print_info i 0)) = true.
+Proof. exact report_indentation. Qed.
+Print Assumptions C20_indentation.
+
+(* the only C0 control or DEL in the output is the LF that terminates a line *)
+Theorem C20_no_controls : forall i n b, info_ok i ->
+  In b (print_info i n) -> is_c0_or_del b = true -> b = 10.
+Proof. exact report_no_c0_controls. Qed.
+Print Assumptions C20_no_controls.
+
+(* the layout holds for any sanitiser that never emits LF *)
+Theorem C20_layout_any_sanitiser : forall san, (forall s, ~ In 10 (san s)) ->
+  forall i n, split_lines (print_info_with san i n) = lines_of san i n.
+Proof. exact split_print. Qed.
+Print Assumptions C20_layout_any_sanitiser.
+
+(* printing strings verbatim (the code before the repair of F30) violates the property *)
+Theorem C20_raw_printing_refuted :
+  exists i, length (split_lines (print_info_raw i 0)) <> count_lines i.
+Proof. exact raw_printing_refuted. Qed.
+Print Assumptions C20_raw_printing_refuted.
+
+(* no C1 control in the sanitiser's output, as an encoded rune or as a stray byte *)
+Theorem C20_no_c1 : forall s, bytes_ok s = true ->
+  existsb bad_rune (runes (sanitize s)) = false /\
+  stray_c1 (length (sanitize s)) (sanitize s) = false.
+Proof. exact sanitize_no_c1. Qed.
+Print Assumptions C20_no_c1.
+
+(* the escaping loses no information *)
+Theorem C20_sanitize_injective : forall a b, bytes_ok a = true -> bytes_ok b = true ->
+  sanitize a = sanitize b -> a = b.
+Proof. exact sanitize_injective. Qed.
+Print Assumptions C20_sanitize_injective.
